@@ -25,6 +25,7 @@ type Opts struct {
 	NoScan     bool
 	MaxTotal   int // bound on the estimated number of rows flowing anywhere (default 4000)
 	Yield      bool
+	NoShare    bool // every node has at most one consumer (no shared sub-slices)
 }
 
 var defaultOps = []string{"map", "map", "filter", "flatmap", "fold", "head", "reduce", "reduce", "cogroup", "reshuffle", "repartition", "reshard", "prefixed", "writerfunc", "source", "scan"}
@@ -222,7 +223,7 @@ func (g *gen) pickInput() int {
 	// prefer the most recent node; sometimes an older one (sharing)
 	for tries := 0; tries < 8; tries++ {
 		i := n - 1
-		if g.draw(0, 3, "older") == 0 {
+		if !g.o.NoShare && g.draw(0, 3, "older") == 0 {
 			i = g.draw(0, n-1, "input")
 		}
 		if g.node(i).Op != "scan" {
@@ -331,7 +332,9 @@ func (g *gen) step() {
 			vt := rapid.SampledFrom([]Col{TInt, TInt64, TString, TFloat64, TUint16}).Draw(g.t, "valtype")
 			id = g.keyed(src, nil, 1, vt)
 		}
-		g.add(Node{Op: "reduce", In: []int{id}, Fn: g.fn()}, LBag, false, g.est[id])
+		rf := g.fn()
+		rf.Count = false // the number of combiner calls depends on the combining strategy
+		g.add(Node{Op: "reduce", In: []int{id}, Fn: rf}, LBag, false, g.est[id])
 	case "reshuffle":
 		id := src
 		if !in.KeyOK() {
@@ -351,6 +354,7 @@ func (g *gen) step() {
 		g.add(Node{Op: "reshard", In: []int{id}, N: k}, lvl, false, g.est[id])
 	case "repartition":
 		f := g.fn()
+		f.Count = false // whether/how often the partition function is called is not fixed (not at all for one shard)
 		f.Kind = rapid.SampledFrom([]string{"hash", "const", "col0"}).Draw(g.t, "partkind")
 		f.M = g.draw(0, 6, "partconst")
 		if in.Prefix > len(in.Cols) {
@@ -370,7 +374,11 @@ func (g *gen) step() {
 		est := g.est[a]
 		for k := 1; k < nin; k++ {
 			var b int
-			switch g.draw(0, 2, "cgsrc") {
+			sel := g.draw(0, 2, "cgsrc")
+			if g.o.NoShare {
+				sel = 0
+			}
+			switch sel {
 			case 0:
 				b = g.source()
 			case 1:
